@@ -57,6 +57,10 @@ impl<P: Printer> InteractivePrinter<P> {
       println!("{new_content}");
       Ok(())
     } else {
+      #[cfg(ast_grep_verif)]
+      if let Some(err) = crate::verif::fs_write_fault(path) {
+        return Err(err).with_context(|| EC::WriteFile(path.clone()));
+      }
       std::fs::write(path, new_content).with_context(|| EC::WriteFile(path.clone()))
     }
   }
